@@ -130,7 +130,7 @@ fn one_stream(ctx: &Ctx, acc: &mut Acc, l: L, lang: &text2num::Language, syms: &
     // clause 2b: the same on the TEXT path (tokenizer, annotation): a text the validator accepts — a lone hyphen
     // between blanks included — is seen there as exactly one number with the same digits. Ambiguity words are left
     // out: the annotation of the text path sets them aside by design.
-    if !hinted && syms.iter().any(|w| *w == "-") && syms.iter().all(|w| *w == "-" || w.chars().any(|c| c.is_alphanumeric())) {
+    if !hinted && syms.iter().any(|w| *w == "-" || w.chars().any(|c| JOINERS.contains(&c))) && syms.iter().all(|w| *w == "-" || w.chars().any(|c| c.is_alphanumeric())) {
         let text = syms.join(" ");
         acc.traces += 1;
         let v = t2d(&text, lang);
@@ -171,6 +171,10 @@ fn one_stream(ctx: &Ctx, acc: &mut Acc, l: L, lang: &text2num::Language, syms: &
         }
     }
 }
+
+/// characters that may stand where a compound number has its hyphen or blank: typographic hyphens and dashes, the
+/// minus sign, the soft hyphen, and a few ASCII signs
+pub const JOINERS: [char; 16] = ['\u{2010}', '\u{2011}', '\u{2012}', '\u{2013}', '\u{2014}', '\u{2212}', '\u{ad}', '\u{2043}', '\u{fe63}', '\u{ff0d}', '_', '/', '+', '\u{b7}', '\u{2019}', '~'];
 
 pub fn run(tier: Tier) -> i32 {
     let ctx = Ctx::new("C07", tier);
@@ -222,6 +226,25 @@ pub fn run(tier: Tier) -> i32 {
                 }
             }));
         }
+        // two number words joined by something other than the ASCII hyphen (typographic hyphens and dashes, minus sign,
+        // soft hyphen ...): whatever the validator makes of such a word, the scanners (token and text path) agree
+        {
+            let c = vocab::cls(l);
+            let mut acc_j = Acc::new();
+            for (w1, w2) in [(&c.tens, &c.unit), (&c.unit, &c.hundred), (&c.hundred, &c.unit), (&c.tens, &c.one), (&c.unit, &c.thousand), (&c.unit, &c.tens)] {
+                for j in JOINERS {
+                    for glue in [format!("{w1}{j}{w2}"), format!("{w1}{j}"), format!("{j}{w2}")] {
+                        let a3: Vec<String> = vec![glue.clone(), c.one.clone(), c.hundred.clone(), c.unit.clone()];
+                        acc_j.merge(explore::all_sequences2(&a3, 2, |syms, acc| {
+                            if syms.iter().any(|s| *s == glue) {
+                                one_stream(&ctx, acc, l, &lang, syms)
+                            }
+                        }));
+                    }
+                }
+            }
+            total.merge(acc_j);
+        }
         // long streams: every pattern of <= 2 class symbols repeated r times
         total.merge(explore::all_repetitions(&cls, 2, 2..=rmax, |syms, acc| one_stream(&ctx, acc, l, &lang, syms)));
         total.sample(json!({"lang": l.code(), "stream": cls.iter().take(5).collect::<Vec<_>>()}));
@@ -229,7 +252,7 @@ pub fn run(tier: Tier) -> i32 {
     let cov = json!({
         "exhaustive": true,
         "rule": "every token stream of length <= k over the alphabet (no hints, no annotation, threshold 0): scanner vs validator compared on three clauses; non-trivial = non-decimal occurrences re-validated",
-        "bounds": {"sigma_full_depth": kf, "sigma_cls_depth": kc, "whole_sigma_cls_depth": 4, "long_streams": {"pattern_depth": 2, "repetitions_up_to": rmax}, "hinted_streams": "8 class words, each plain or '~' (unrelated to its predecessor), depth <= 3 (thorough 4); clauses 1 and 3"},
+        "bounds": {"sigma_full_depth": kf, "sigma_cls_depth": kc, "whole_sigma_cls_depth": 4, "long_streams": {"pattern_depth": 2, "repetitions_up_to": rmax}, "joined_words": "6 pairs of number words x 16 joiners (typographic hyphens, dashes, minus, soft hyphen, _ / + middle dot, right quote, tilde), joined / trailing / leading, in streams <= 2 with one, hundred, unit; token and text path", "hinted_streams": "8 class words, each plain or '~' (unrelated to its predecessor), depth <= 3 (thorough 4); clauses 1 and 3"},
         "alphabets": sizes,
     });
     ctx.finish(total, cov, vec![
